@@ -287,9 +287,29 @@ class Validator:
             ctx.count("resources_exact_paths")
             if got != est_counts:
                 diff = {k: (got.get(k, 0), est_counts.get(k, 0)) for k in set(got) | set(est_counts) if got.get(k, 0) != est_counts.get(k, 0)}
+                mech = f"resource-estimate:{canon(op)}"
+                try:
+                    # mechanism: flip_control_adjoint declares Adjoint(qp.ctrl(<abstract base>, control_values=<abstract>)), which is never
+                    # lowered to the custom controlled class (ControlledPhaseShift, CH, Toffoli, ...) that the rule emits at run time, so
+                    # the graph prices a different node than the one that is applied: the estimate of the emitted child differs.
+                    rule = sol.decomposition(op, nww)
+                    if getattr(rule, "name", "") == "flip_control_adjoint":
+                        _, a, kw = _get_decomp_args(op)
+                        with self.qp.queuing.AnnotatedQueue() as q:
+                            rule(*a, **kw)
+                        kids = [s for s in q.queue if type(s).__name__ not in ("Allocate", "Deallocate")]
+                        if len(kids) == 1 and sol.is_solved_for(kids[0], nww):
+                            kid_est = {}
+                            for k, v in sol.resource_estimate(kids[0], nww).gate_counts.items():
+                                if v:
+                                    kid_est[canon(k.name)] = kid_est.get(canon(k.name), 0) + int(v)
+                            if kid_est == got and kid_est != est_counts:
+                                mech = "resource-estimate:flip_control_adjoint:declared-rep-not-lowered"
+                except Exception:  # noqa: BLE001
+                    pass
                 ctx.violation("decomp.resources", f"{op.name}: emitted gate counts differ from the graph solution's resource estimate although every rule on the "
                                                   f"path declares exact resources: (emitted, estimated) = {diff}",
-                              case=self.witness(tape, new, {"emitted": got, "estimated": est_counts}), mech=f"resource-estimate:{canon(op)}")
+                              case=self.witness(tape, new, {"emitted": got, "estimated": est_counts}), mech=mech)
         elif ex is False:
             # the statement makes no claim when a rule on the path declares inexact resources: observability only
             ctx.count("resources_inexact_paths")
